@@ -1,6 +1,8 @@
 -- REGENERATED on every run by /verif/check from the compiled /repo tree. Do not edit.
 namespace SdnsVerif.Gen.C05
 
+def acceptHeader_by_counts : List Nat := [3, 0, 3, 0, 3, 0, 3, 0, 3, 0, 3]
+def acceptHeader_by_qr_opcode : List Nat := [0, 2, 2, 2, 0, 2, 2, 2, 2, 2, 2, 2, 2, 2, 2, 2, 1, 1, 1, 1, 1, 1, 1, 1, 1, 1, 1, 1, 1, 1, 1, 1]
 def acceptHeader_query_qr0 : Nat := 0
 def applyReply_opcodes : List Nat := [32768, 34816, 36864, 38912, 40960, 43008, 45056, 47104, 49152, 51200, 53248, 55296, 57344, 59392, 61440, 63488]
 def applyReply_single_bits : List Nat := [32769, 32770, 32772, 32776, 32768, 32800, 32832, 32896, 32768, 33280, 32768, 32768, 32768, 32768, 32768, 32768]
